@@ -998,23 +998,28 @@ func (pa *path) setNotAvailable() {
 }
 
 func (pa *path) startRecording() {
+	// callbacks are called from recorder routines.
+	// use the current configuration, since pa.conf can be replaced by a reload
+	// (the recorder is recreated when parameters used here change).
+	pathConf := pa.conf
+
 	pa.recorder = &recorder.Recorder{
-		PathFormat:      pa.conf.RecordPath,
-		Format:          pa.conf.RecordFormat,
-		PartDuration:    time.Duration(pa.conf.RecordPartDuration),
-		MaxPartSize:     pa.conf.RecordMaxPartSize,
-		SegmentDuration: time.Duration(pa.conf.RecordSegmentDuration),
+		PathFormat:      pathConf.RecordPath,
+		Format:          pathConf.RecordFormat,
+		PartDuration:    time.Duration(pathConf.RecordPartDuration),
+		MaxPartSize:     pathConf.RecordMaxPartSize,
+		SegmentDuration: time.Duration(pathConf.RecordSegmentDuration),
 		PathName:        pa.name,
 		Stream:          pa.stream,
 		OnSegmentCreate: func(segmentPath string) {
-			if pa.conf.RunOnRecordSegmentCreate != "" {
+			if pathConf.RunOnRecordSegmentCreate != "" {
 				env := pa.ExternalCmdEnv()
 				env["MTX_SEGMENT_PATH"] = segmentPath
 
 				pa.Log(logger.Info, "runOnRecordSegmentCreate command launched")
 				cmd := &externalcmd.Cmd{
 					Pool:    pa.externalCmdPool,
-					Cmdstr:  pa.conf.RunOnRecordSegmentCreate,
+					Cmdstr:  pathConf.RunOnRecordSegmentCreate,
 					Restart: false,
 					Env:     env,
 				}
@@ -1022,7 +1027,7 @@ func (pa *path) startRecording() {
 			}
 		},
 		OnSegmentComplete: func(segmentPath string, segmentDuration time.Duration) {
-			if pa.conf.RunOnRecordSegmentComplete != "" {
+			if pathConf.RunOnRecordSegmentComplete != "" {
 				env := pa.ExternalCmdEnv()
 				env["MTX_SEGMENT_PATH"] = segmentPath
 				env["MTX_SEGMENT_DURATION"] = strconv.FormatFloat(segmentDuration.Seconds(), 'f', -1, 64)
@@ -1030,7 +1035,7 @@ func (pa *path) startRecording() {
 				pa.Log(logger.Info, "runOnRecordSegmentComplete command launched")
 				cmd := &externalcmd.Cmd{
 					Pool:    pa.externalCmdPool,
-					Cmdstr:  pa.conf.RunOnRecordSegmentComplete,
+					Cmdstr:  pathConf.RunOnRecordSegmentComplete,
 					Restart: false,
 					Env:     env,
 				}
